@@ -709,6 +709,9 @@ func (w *World) registerJSONDecodeIntrinsics() {
 		e.hidden[fmt.Sprintf("idtokenclaims:%d", obj.id)] = claimsV
 		return tuple(&Pointer{obj: obj}, nilIface)
 	}
+	I["(*"+oidcp+".TokenExpiredError).Error"] = func(e *Exec, fn *ssa.Function, a []Value) Value {
+		return mkStr("oidc: token is expired")
+	}
 	I["(*"+oidcp+".IDToken).Claims"] = func(e *Exec, fn *ssa.Function, a []Value) Value {
 		p := a[0].(*Pointer)
 		if isNilPtr(p) {
